@@ -102,6 +102,56 @@ Theorem C07_order_independent_umn :
 Proof. exact C07Facts.umn_order_independent. Qed.
 Print Assumptions C07_order_independent_umn.
 
+(* end to end for the repaired handler: link files, .cap files, extension stripping,
+   merge and final sort included, with the real link-file parser *)
+Theorem C07_order_independent_umn_full :
+  forall fx alts mode w e1 e2, fx_sorted_enum fx = true -> Permutation e1 e2 ->
+    umn_listing fx alts mode w e1 = umn_listing fx alts mode w e2.
+Proof. exact C07Facts.umn_full_order_independent. Qed.
+Print Assumptions C07_order_independent_umn_full.
+
+Theorem C07_order_independent_umn_repaired :
+  forall alts mode w e1 e2, Permutation e1 e2 ->
+    umn_listing repaired alts mode w e1 = umn_listing repaired alts mode w e2.
+Proof. exact C07Facts.umn_repaired_order_independent. Qed.
+Print Assumptions C07_order_independent_umn_repaired.
+
+(* a directory with two link files touching one entry and a .cap file on another:
+   every enumeration order yields this one listing *)
+Example C07_example_two_linkfiles :
+  (forall e, Permutation two_links_enum e ->
+     umn_listing repaired shipped_ignore StripNone two_links_world e =
+     umn_listing repaired shipped_ignore StripNone two_links_world two_links_enum) /\
+  exists l, umn_listing repaired shipped_ignore StripNone two_links_world two_links_enum = Ok l /\
+            map (fun oe => (fst oe, e_name (snd oe), e_num (snd oe))) l =
+            [(Some (lit "b.txt"%string), Some (lit "Bee"%string), Some 1%Z);
+             (Some (lit "a.txt"%string), Some (lit "Second"%string), Some 2%Z)].
+Proof. exact C07Facts.two_links_example. Qed.
+
+(* hidden by metadata stays hidden (D25 repaired): whatever in the listing does not
+   stand for a directory entry is the entry of a link block, and a block for ./name
+   only gets there when that file was not dropped by its .cap file and the block
+   is not itself a hide block *)
+Theorem C07_cap_hidden_stays_hidden :
+  forall plf fx alts mode w enum l e,
+    fx_hidden_stays fx = true -> umn_listing_gen plf fx alts mode w enum = Ok l -> In (None, e) l ->
+    exists files links le,
+      umn_scan plf fx alts w (enum_order fx enum) [] [] = Ok (files, links) /\
+      In le links /\ e = le_entry le /\
+      (le_merge le = false \/
+       (mem_str (e_selector e) (cap_dropped plf mode w (sort_names files)) = false /\
+        link_hides fx (e_type e) = false)).
+Proof. exact C07Facts.umn_link_entries. Qed.
+Print Assumptions C07_cap_hidden_stays_hidden.
+
+(* before that repair: fred is dropped by .cap/fred (Type=X) and listed all the same *)
+Theorem C07_cap_hidden_relisted_refuted :
+  exists l, umn_listing head_before_d25 shipped_ignore StripNone d25_world d25_enum = Ok l /\
+            map (fun oe => (fst oe, e_selector (snd oe))) l =
+            [(None, lit "/d/fred"%string); (Some (lit "a.txt"%string), lit "/d/a.txt"%string)].
+Proof. exact C07Facts.cap_hidden_relisted_refuted. Qed.
+Print Assumptions C07_cap_hidden_relisted_refuted.
+
 (* the pinned code reads link files in enumeration order before it sorts *)
 Theorem C07_linkorder_refuted :
   exists w e1 e2, Permutation e1 e2 /\ NoDup e1 /\
